@@ -127,9 +127,12 @@ pub fn dump_case(idx: u64, items: &[Item], opt: u64, flags: Value) -> Value {
     let report_time = opt % 5 == 0;
     // every 4th case hands the second half of the stream to a clone of the reporter
     let clone_at = (opt % 4 == 1 && items.len() > 3).then_some(items.len() / 2);
+    // every 3rd case writes into a sink that takes at most 13 bytes per write() call
+    let short_writes = opt % 3 == 2;
+    let sink = || if short_writes { SharedBuf::chunked(13) } else { SharedBuf::default() };
 
     let basic = guarded(|| {
-        let buf = SharedBuf::default();
+        let buf = sink();
         let mut w = writer::Basic::new::<TW>(buf.clone(), Coloring::Never, verbosity);
         feed_cloning(&mut w, items, &writer::basic::Cli { verbose: 0, color: Coloring::Never }, clone_at);
         buf.text()
@@ -137,13 +140,13 @@ pub fn dump_case(idx: u64, items: &[Item], opt: u64, flags: Value) -> Value {
     // the terminal reporter as `Basic::stdout()` builds it: with the summary at the end
     let summarized = guarded(|| {
         use cucumber::WriterExt as _;
-        let buf = SharedBuf::default();
+        let buf = sink();
         let mut w = writer::Basic::new::<TW>(buf.clone(), Coloring::Never, verbosity).summarized();
         feed_cloning(&mut w, items, &writer::basic::Cli { verbose: 0, color: Coloring::Never }, clone_at);
         buf.text()
     });
     let libtest = guarded(|| {
-        let buf = SharedBuf::default();
+        let buf = sink();
         let mut w = writer::Libtest::<TW, SharedBuf>::new(buf.clone());
         let cli = writer::libtest::Cli {
             format: None,
@@ -155,20 +158,20 @@ pub fn dump_case(idx: u64, items: &[Item], opt: u64, flags: Value) -> Value {
         buf.text()
     });
     let jsonr = guarded(|| {
-        let buf = SharedBuf::default();
+        let buf = sink();
         let mut w = writer::Json::new::<TW>(buf.clone());
         feed_cloning(&mut w, items, &cucumber::cli::Empty, clone_at);
         buf.text()
     });
     let junit = guarded(|| {
-        let buf = SharedBuf::default();
+        let buf = sink();
         let mut w = writer::JUnit::<TW, SharedBuf>::new(buf.clone(), verbosity.min(1));
         feed_cloning(&mut w, items, &writer::junit::Cli { verbose: None }, clone_at);
         buf.text()
     });
     json!({
         "case_index": idx,
-        "opts": {"verbosity": verbosity, "show_output": show_output, "report_time": report_time, "cloned_at": clone_at},
+        "opts": {"verbosity": verbosity, "show_output": show_output, "report_time": report_time, "cloned_at": clone_at, "short_writes": short_writes},
         "flags": flags,
         "facts": facts(&norm),
         "basic": basic, "libtest": libtest, "json": jsonr, "junit": junit,
